@@ -13,6 +13,7 @@ import (
 	"github.com/jotaen/klog/klog/parser/reconciling"
 	"github.com/jotaen/klog/klog/parser/txt"
 
+	"klogverif/clidrv"
 	"klogverif/docgen"
 	"klogverif/fw"
 	sm "klogverif/specmodel"
@@ -120,7 +121,11 @@ func c08Text(c *fw.Ctx, fam string, idx int, text string) {
 		if len(errs) > 0 {
 			if n == 0 {
 				c.Outcome("rejected")
+				c.Mark(nil)
+				return
 			}
+			// the serial parser accepted this text: klog on a machine with n CPUs must read it, too
+			c.Violation("rejected:"+leg, cs(), fmt.Sprintf("the text is accepted by the serial parser but the parallel parser (%d workers) rejects it (%s): no blocks reproduce it", n, errSummary(errs)))
 			return
 		}
 		if n == 0 {
@@ -140,6 +145,15 @@ func c08Text(c *fw.Ctx, fam string, idx int, text string) {
 			if why := c08Noop(text, rs, bs); why != "" {
 				c.Violation("noop-reconcile", cs(), why)
 				return
+			}
+			// the same through the real context on a real file (read - parse - reconcile nothing - write), for every
+			// text with bytes outside ASCII and on a fixed stride of the others
+			if len(rs) > 0 && (idx%8 == 0 || !isASCII(text)) {
+				if why := c08NoopFile(text, rs); why != "" {
+					c.Violation("noop-reconcile-file", cs(), why)
+					return
+				}
+				c.Count("noop_file_roundtrips", 1)
 			}
 		}
 	}
@@ -234,6 +248,38 @@ func c08Noop(text string, rs []klog.Record, bs []txt.Block) string {
 		}
 		if res.AllSerialised != text {
 			return fmt.Sprintf("no-op reconcile at %s changed the text: %q -> %q", d.ToString(), text, res.AllSerialised)
+		}
+	}
+	return ""
+}
+
+func isASCII(s string) bool {
+	for i := 0; i < len(s); i++ {
+		if s[i] >= 0x80 {
+			return false
+		}
+	}
+	return true
+}
+
+// c08NoopFile: klog's own context reads the file from disk, parses it, applies a reconciler that changes nothing
+// and writes the result back; the bytes on disk must be the same afterwards.
+func c08NoopFile(text string, rs []klog.Record) string {
+	dir := fw.Scratch()
+	path := clidrv.WriteFile(dir, "c08.klg", text)
+	for _, cpus := range []int{1, 3} {
+		ctx := clidrv.RealContext(clidrv.Home("home"), clidrv.Opts{Now: fixedNow, NumCpus: cpus})
+		var err app.Error
+		if p, v, st := tryRun(func() {
+			_, err = ctx.ReconcileFile(app.FileOrBookmarkName(path), []reconciling.Creator{reconciling.NewReconcilerAtRecord(rs[0].Date())})
+		}); p {
+			return fmt.Sprintf("no-op ReconcileFile (%d CPUs) panicked: %v\n%s", cpus, v, st)
+		}
+		if err != nil {
+			return fmt.Sprintf("no-op ReconcileFile (%d CPUs) failed on a text the parser accepts: %s %s", cpus, err.Error(), err.Details())
+		}
+		if after := clidrv.ReadFile(path); after != text {
+			return fmt.Sprintf("a reconcile that changes nothing (%d CPUs) rewrote the file: %q -> %q", cpus, text, after)
 		}
 	}
 	return ""
